@@ -169,6 +169,17 @@ def run(c, case):
             v = a._getitem((slice(None), 1))
             v._setitem((1,), -9)
         return {'a': arr_list(a)}
+    if f == 'np_median':
+        m = np.np_median(np.asarray(case['vals']))
+        import z3 as _z3
+        v = m.val
+        v = float(_z3.simplify(core.zreal(v)).as_fraction()) if hasattr(v, 'z') or not isinstance(v, (int, float)) else float(v)
+        return {'m': v}
+    if f == 'np_roll':
+        import numpy
+        return {'r': arr_list(np.np_roll(np.asarray(numpy.arange(12).reshape(3, 4).tolist()), case['shift'], axis=case['axis']))}
+    if f == 'np_clip':
+        return {'r': arr_list(np.np_clip(np.asarray([-4, -1, 0, 2, 3, 7]), case['lo'], case['hi']))}
     if f == 'np_where':
         wrap = lambda v: np.asarray(v) if isinstance(v, list) else v
         r = np.np_where(np.asarray(case['cond'], dtype=np.BOOL), wrap(case['x']), wrap(case['y']))
